@@ -1,15 +1,16 @@
 #!/bin/bash
-# tools/seed_run.sh <seed-id> <property> [tier]  -- apply seeded/<seed-id>/patch.diff to /repo, run the check, undo.
+# tools/seed_run.sh <seed-id> <property> [tier]
+# Runs the check of <property> against the seeded change WITHOUT touching /repo: a scratch git worktree of /repo HEAD
+# gets the patch, the check is pointed at it with JV_REPO, evidence and replays go to a scratch directory.
 set -u
 ID="$1"; PROP="$2"; TIER="${3:-quick}"
 cd /verif
-if [ -n "$(git -C /repo status --porcelain -- j1939)" ]; then echo "/repo not clean"; exit 2; fi
-git -C /repo apply "/verif/seeded/$ID/patch.diff" || exit 2
-cp evidence/$PROP.json /tmp/.ev.$PROP.$$ 2>/dev/null
-./vcheck "$PROP" "$TIER" > /tmp/.seedrun.$$ 2>&1; RC=$?
-git -C /repo checkout -- j1939
-[ -f /tmp/.ev.$PROP.$$ ] && mv /tmp/.ev.$PROP.$$ evidence/$PROP.json
-grep -c '^VIOLATION' /tmp/.seedrun.$$ | sed "s/^/seed $ID vs $PROP $TIER: exit $RC, VIOLATION lines: /"
-grep -E '^(VIOLATION|  oracle|INCONCLUSIVE)' /tmp/.seedrun.$$ | head -6
-tail -1 /tmp/.seedrun.$$
-rm -f /tmp/.seedrun.$$
+WT=$(mktemp -d /tmp/seedrun.XXXXXX); rmdir "$WT"
+SCR=$(mktemp -d /tmp/seedout.XXXXXX)
+git -C /repo worktree add --detach "$WT" HEAD >/dev/null 2>&1 || { echo "worktree failed"; exit 2; }
+trap 'git -C /repo worktree remove --force "$WT" >/dev/null 2>&1; rm -rf "$SCR"' EXIT
+git -C "$WT" apply "/verif/seeded/$ID/patch.diff" || { echo "seed $ID vs $PROP $TIER: patch does not apply"; exit 2; }
+JV_REPO="$WT" JV_EVIDENCE_DIR="$SCR" JV_REPLAY_DIR="$SCR" ./vcheck "$PROP" "$TIER" > "$SCR/out" 2>&1; RC=$?
+grep -c '^VIOLATION' "$SCR/out" | sed "s/^/seed $ID vs $PROP $TIER: exit $RC, VIOLATION lines: /"
+grep -E '^(VIOLATION|  oracle|INCONCLUSIVE)' "$SCR/out" | head -6
+tail -1 "$SCR/out"
